@@ -37,6 +37,7 @@ def run(ctx):
     from rules import c05
     c05.version_conditional_fields(ctx, P)
     c05.cumulative_count_check_agrees(ctx, P)
+    c05.s2k_specifier_length_agrees(ctx, P)
 
 
 def unlock(ctx, P):
